@@ -1,6 +1,7 @@
 import Zlink.Model.Wire
 import Zlink.Model.DriverRx
 import Zlink.Spec.Server
+import Zlink.Model.ServerWake
 /-! Driver glue for the `srv*` scenarios. -/
 namespace DriverSrv
 open Wire Rx Srv
@@ -111,7 +112,11 @@ def handle (ts : List String) : String :=
     match (es.zipIdx.mapM fun (t, k) => parseEv C (declsAt k) t) with
     | none => "bad-event"
     | some evs =>
-      let s := runEvs C (fun _ => 1000000000) evs Srv.init
+      -- `W1`: the harness polled the server only when its waker had been woken; the model does the same
+      -- (`C08_wake_driven`: the states are those of the eager run)
+      let w := if ts.contains "W1" then runW C (fun _ => 1000000000) evs initW else { s := runEvs C (fun _ => 1000000000) evs Srv.init, woken := false, stalled := false }
+      if w.stalled then "M stalled | H 1" else
+      let s := w.s
       let all := s.all
       let outOf (i : Nat) : List Tok := match all.find? (·.id == i) with | some c => c.out | none => []
       let m := String.join (decls.map fun d =>
